@@ -138,7 +138,8 @@ func (s Server) RollbackTransaction(ctx context.Context, req *admin.RollbackRequ
 	}
 	for transactionEvent := range eventCh {
 		if (transactionEvent.Transaction.TransactionStrategy.Synchronicity == configapi.TransactionStrategy_ASYNCHRONOUS &&
-			transactionEvent.Transaction.Status.State == configapi.TransactionStatus_COMMITTED) ||
+			(transactionEvent.Transaction.Status.State == configapi.TransactionStatus_COMMITTED ||
+				transactionEvent.Transaction.Status.State == configapi.TransactionStatus_APPLIED)) ||
 			(transactionEvent.Transaction.TransactionStrategy.Synchronicity == configapi.TransactionStrategy_SYNCHRONOUS &&
 				transactionEvent.Transaction.Status.State == configapi.TransactionStatus_APPLIED) {
 			response := &admin.RollbackResponse{ID: t.ID, Index: t.Index}
